@@ -7,6 +7,13 @@ GenNext  == Len(hist) < Depth /\ Next
 GenSpec  == Init /\ [][GenNext]_vars
 EmitEdge == PrintT("@@B " \o ToJson(hist'))
 EmitFull == (Len(hist') = Depth) => PrintT("@@B " \o ToJson(hist'))
+\* witnesses of a named deviation: every transition (within Depth calls) into a state where a C30 invariant is
+\* false, exported as a behaviour; exploration does not continue beyond such a state
+AllInv == /\ Inv_C30_ReadableWhileActive /\ Inv_C30_ReadsNewestValue /\ Inv_C30_ReadableWhileRetained
+          /\ Inv_C30_RemovedUnreadable /\ Inv_C30_Answers /\ Inv_C30_ObservedReads /\ Inv_C30_PersisterContents
+WitNext  == Len(hist) < Depth /\ AllInv /\ Next
+WitSpec  == Init /\ [][WitNext]_vars
+EmitBad  == (~AllInv') => PrintT("@@B " \o ToJson(hist'))
 \* R1 bound: number of calls (the state graph itself is finite but large)
 DepthSpec == Init /\ [][Len(hist) < Depth /\ Next]_vars
 ====
